@@ -13,6 +13,7 @@ SPEC = {'id': 'C20',
  'harness': [
      {'pkg': 'broker', 'test': 'TestVerifC20Broker$', 'race': True, 'timeout': '10m'},
      {'pkg': 'proxy/lib', 'test': 'TestVerifC20Proxy$', 'race': True, 'checklinkname': True, 'timeout': '10m'},
+     {'pkg': 'common/turbotunnel', 'test': 'TestVerifC20Turbotunnel$', 'race': True, 'timeout': '10m'},
      {'pkg': 'client/lib', 'test': 'TestVerifC20Client$', 'race': True, 'checklinkname': True, 'timeout': '10m'},
      # the workloads of the other checks, re-run under the race detector; only race reports count here
      {'pkg': 'broker', 'test': 'TestVerifC04$', 'race': True, 'race_only': True, 'tier': 'quick', 'timeout': '15m'},
@@ -24,6 +25,7 @@ SPEC = {'id': 'C20',
      {'pkg': 'client/lib', 'test': 'TestVerifC15', 'race': True, 'race_only': True, 'tier': 'quick', 'checklinkname': True, 'timeout': '15m'},
      {'pkg': 'proxy/lib', 'test': 'TestVerifC16', 'race': True, 'race_only': True, 'tier': 'quick', 'checklinkname': True, 'timeout': '15m'},
  ],
+ 'optional_overlay': {'broker/zz_verif_core_internals_test.go': 'broker_core_internals_test.go'},
  'overlay': {'broker/zz_verif_c20_test.go': 'c20_broker_test.go',
              'broker/zz_verif_core_test.go': 'broker_core_test.go',
              'broker/zz_verif_c14_test.go': 'c14_broker_http_test.go',
@@ -33,6 +35,7 @@ SPEC = {'id': 'C20',
              'client/lib/zz_verif_c01_test.go': 'c01_stack_test.go',
              'client/lib/zz_verif_c15_test.go': 'c15_clientlib_test.go',
              'common/turbotunnel/zz_verif_c17_test.go': 'c17_turbotunnel_test.go',
+             'common/turbotunnel/zz_verif_c20_test.go': 'c20_turbotunnel_test.go',
              'server/lib/zz_verif_c05_test.go': 'c05_serverlib_test.go',
              'server/lib/zz_verif_c18_test.go': 'c18_serverlib_test.go'},
  'rule': 'cases = (a) access rows of the regenerated table (one per shared variable x function x read/write x lockset), all '
@@ -41,7 +44,7 @@ SPEC = {'id': 'C20',
          '10 s timeout with clients and answers arriving within +-20 ms of the timers, with the bodies of the daily '
          'logMetrics loop and of the SIGHUP geoip reload and /debug + /prometheus scrapes running every few ms; the proxy '
          'traffic counter, periodic summary, tokens and NAT type driven from the goroutines that drive them in snowflake.go; '
-         'the client Peers collection over real pion peers under collect / pop / read / write / close churn, NAT updates '
+         'the turbotunnel adapters driven like the server and the client drive them (carrier goroutines on QueueIncoming / OutgoingQueue, KCP on ReadFrom / WriteTo, receive and send queues running full, client-map sweeps with a 40 ms timeout, Close during traffic; RedialPacketConn with carriers that fail after a few writes and Close during a redial); the client Peers collection over real pion peers under collect / pop / read / write / close churn, NAT updates '
          'and End() during churn; plus the harnesses of C04 (forced herds at timeout boundaries), C14 (the real broker binary, built with -race for this run, geoip databases loaded, SIGHUP every 40 ms while it serves the generated HTTP traffic), C17 (ClientMap / '
          'QueuePacketConn / RedialPacketConn), C05 and C18 (server sessions and carriers), C01 (whole client-server stack), '
          'C15 (Peers) and C16 (proxy sessions against a pion client) re-run under -race. One case = one driven flow / '
